@@ -239,13 +239,14 @@ func c06Exec(op string) string {
 			return "bad-op " + c.err.Error()
 		}
 		m, err := mxj.NewMapJson([]byte(s)) // JsonUseNumber off (default): numbers are float64
+		// reference: the FIRST value encoding/json decodes; an array is returned under "object"
+		// (F-JSON-ARRAYTAIL repaired: what follows the array is not looked at - no exception)
 		var ref interface{}
-		text := s
-		if strings.HasPrefix(strings.TrimLeft(s, " \t\r\n"), "[") {
-			text = `{"object":` + s + `}`
-		}
-		rerr := json.NewDecoder(strings.NewReader(text)).Decode(&ref)
+		rerr := json.NewDecoder(strings.NewReader(s)).Decode(&ref)
 		note := ""
+		if _, isArr := ref.([]interface{}); rerr == nil && isArr {
+			ref = map[string]interface{}{"object": ref}
+		}
 		_, isObj := ref.(map[string]interface{})
 		switch {
 		case len(s) == 0:
@@ -288,14 +289,10 @@ func c06Exec(op string) string {
 				note = "an object encoding/json accepts was rejected or decoded differently"
 			}
 		case rerr == nil && isArr:
-			// an array is returned under "object"; the wrapper re-parses `{"object":` + input + `}`,
-			// so bytes after the array matter
-			var wrapped interface{}
-			dw := json.NewDecoder(strings.NewReader(`{"object":` + s + `}`))
-			dw.UseNumber()
-			werr := dw.Decode(&wrapped)
-			if (werr == nil) != (err == nil) || (err == nil && !deepEq(map[string]interface{}(m), wrapped)) {
-				note = "array input not returned under \"object\""
+			// an array is returned, alone, under "object": the first value and nothing else - what
+			// follows the array is not looked at (F-JSON-ARRAYTAIL repaired; no exception)
+			if err != nil || !deepEq(map[string]interface{}(m), map[string]interface{}{"object": ref}) {
+				note = "ARRAYFIRST an array encoding/json accepts as first value was rejected or not returned as {\"object\": that array}"
 			}
 		case rerr == nil && ref == nil:
 			if err == nil {
@@ -560,6 +557,11 @@ func init() {
 // c06Fixed: regression inputs (repaired defects, recorded findings, documented special cases).
 func c06Fixed() []string {
 	ops := []string{}
+	// F-JSON-ARRAYTAIL (repaired): whatever follows a top-level array is not looked at, a malformed
+	// array is an error
+	for _, t := range []string{"[1,2] x", "[1,2]}", "[1],\"x\":2", " \n[1]\n<!--", "[1,2", "[1],\"object\":5", "[1.5e3,{\"a\":[]}]]", "[]x", "[1 2]", "["} {
+		ops = append(ops, "jdec "+encStr(t), "jdecf "+encStr(t))
+	}
 	for _, t := range []string{" [1]", "\n[{\"a\":1}]", "\t [ ]", "null", " null ", "[1] x", "", "{}", "[]", " {\"a\":1} trailing", "1", "\"s\"", "true"} {
 		ops = append(ops, "jdec "+encStr(t), "jdecf "+encStr(t))
 	}
